@@ -24,6 +24,101 @@ class ModelUnsupported(Exception):
     pass
 
 
+# ---------------------------------------------------------------- NumPy scalar semantics for concrete results
+# np.sum / element access return NumPy scalars, whose `/` and `**` never raise: x/0 -> inf or nan, negative ** 0.5 -> nan.
+# Python's own int/float would raise ZeroDivisionError / return a complex number.  Symbolic values are left alone.
+def _np_wrap(v):
+    if isinstance(v, bool) or hasattr(v, "var"):
+        return v
+    if type(v) is int:
+        return NpInt(v)
+    if type(v) is float:
+        return NpFloat(v)
+    return v
+
+
+def _plain(v):
+    if type(v) is NpFloat:
+        return float(v)
+    if type(v) is NpInt:
+        return int(v)
+    return v
+
+
+def _np_div(a, b):
+    if hasattr(a, "var") or hasattr(b, "var"):
+        return _div(a, b)
+    a, b = float(a), float(b)
+    if b == 0:
+        if a == 0 or a != a:
+            return NpFloat(math.nan)
+        return NpFloat(math.inf if (a > 0) == (math.copysign(1.0, b) > 0) else -math.inf)
+    return NpFloat(a / b)
+
+
+def _np_pow(a, b):
+    if hasattr(a, "var") or hasattr(b, "var"):
+        return _pow(a, b)
+    try:
+        r = float.__pow__(float(a), float(b)) if not (isinstance(a, int) and isinstance(b, int) and b >= 0) else int.__pow__(int(a), int(b))
+    except (ZeroDivisionError, OverflowError):
+        return NpFloat(math.inf)
+    if isinstance(r, complex):
+        return NpFloat(math.nan)
+    return _np_wrap(r)
+
+
+class _NpMixin:
+    def __truediv__(self, o):
+        if isinstance(o, NDArray):
+            return NotImplemented
+        return _np_div(self, o)
+
+    def __rtruediv__(self, o):
+        return _np_div(o, self)
+
+    def __pow__(self, o, mod=None):
+        if isinstance(o, NDArray):
+            return NotImplemented
+        return _np_pow(self, o)
+
+    def __rpow__(self, o):
+        return _np_pow(o, self)
+
+    def _ar(self, o, name):
+        if isinstance(o, NDArray) or hasattr(o, "var") or type(o).__name__ in ("Series",):
+            return NotImplemented
+        base = float if (isinstance(self, float) or isinstance(o, float)) else int
+        r = getattr(base, name)(base(self), base(o)) if not isinstance(o, (NpInt, NpFloat)) or True else None
+        return _np_wrap(r) if r is not NotImplemented else r
+
+    def __add__(self, o): return self._ar(o, "__add__")
+    def __radd__(self, o): return self._ar(o, "__radd__")
+    def __sub__(self, o): return self._ar(o, "__sub__")
+    def __rsub__(self, o): return self._ar(o, "__rsub__")
+    def __mul__(self, o): return self._ar(o, "__mul__")
+    def __rmul__(self, o): return self._ar(o, "__rmul__")
+    def __neg__(self): return _np_wrap(-(float(self) if isinstance(self, float) else int(self)))
+
+
+class NpInt(_NpMixin, int):
+    __slots__ = ()
+
+    def __repr__(self):
+        return int.__repr__(self)
+
+    __hash__ = int.__hash__
+
+
+class NpFloat(_NpMixin, float):
+    __slots__ = ()
+
+    def __repr__(self):
+        return float.__repr__(self)
+
+    __hash__ = float.__hash__
+
+
 def _is_seq(x):
     return isinstance(x, (list, tuple, NDArray, range)) or (
         type(x).__name__ in ("Series", "Index") and hasattr(x, "_values"))
@@ -363,10 +458,10 @@ class NDArray:
     def __rsub__(self, o): return self._bin(o, lambda a, b: b - a)
     def __mul__(self, o): return self._bin(o, lambda a, b: a * b)
     def __rmul__(self, o): return self._bin(o, lambda a, b: b * a)
-    def __truediv__(self, o): return self._bin(o, _div)
-    def __rtruediv__(self, o): return self._bin(o, lambda a, b: _div(b, a))
+    def __truediv__(self, o): return self._bin(o, _np_div)
+    def __rtruediv__(self, o): return self._bin(o, lambda a, b: _np_div(b, a))
     def __floordiv__(self, o): return self._bin(o, lambda a, b: a // b)
-    def __pow__(self, o): return self._bin(o, _pow)
+    def __pow__(self, o): return self._bin(o, _np_pow)
     def __neg__(self): return NDArray([-a for a in self._d], self.shape)
     def __invert__(self): return NDArray([so.b_not(a) for a in self._d], self.shape)
     def __and__(self, o): return self._bin(o, lambda a, b: so.b_and(a, b))
@@ -445,6 +540,7 @@ def _to_float(x):
 def _div(a, b):
     """True division; division by a (possibly) zero value follows NumPy: nan / inf instead of raising.
     A symbolic divisor forks on `== 0`."""
+    a, b = _plain(a), _plain(b)
     if b == 0:
         if a == 0:
             return math.nan
@@ -479,6 +575,7 @@ class _UF:
 
 
 def _pow(a, b):
+    a, b = _plain(a), _plain(b)
     if isinstance(b, int) and not isinstance(b, bool) and 0 <= b <= 8:
         r = 1
         for _ in range(b):
@@ -580,7 +677,7 @@ def sum_(a, axis=None):
         t = 0
         for x in a._d:
             t = t + x
-        return t
+        return _np_wrap(t)
     if a.ndim == 2:
         r, c = a.shape
         if axis == 0:
@@ -717,9 +814,13 @@ def fill_diagonal(a, val):
         raise ValueError("array must be at least 2-d")
     r, c = a.shape
     n = min(r, c)
+    if type(val).__name__ == "DataFrame" and hasattr(val, "to_numpy"):
+        val = val.to_numpy()
+    if isinstance(val, NDArray):
+        val = list(val._d)           # NumPy uses val.flat
     vals = _as_list(val) if _is_seq(val) else None
     if vals is not None and len(_shape_of(vals)) > 1:
-        raise ModelUnsupported("fill_diagonal with n-d values")
+        vals = _flatten(vals, len(_shape_of(vals)))
     for i in builtins_range(n):
         a._d[i * c + i] = vals[i % len(vals)] if vals is not None else val
 
